@@ -10,12 +10,12 @@ exec 9>$MT/.lock; flock 9    # serialise runs on the same property
 if [ ! -d $MT/repo/.git ] && [ ! -f $MT/repo/.git ]; then
   git -C /repo worktree add -f --detach $MT/repo HEAD >/dev/null 2>&1
 fi
-git -C $MT/repo checkout -q --detach "$(git -C /repo rev-parse HEAD)" 2>/dev/null || true
 git -C $MT/repo checkout -q -- . ; git -C $MT/repo clean -fdq -e target
+git -C $MT/repo checkout -q --detach "$(git -C /repo rev-parse HEAD)" || { echo "TEST BED: cannot check out /repo HEAD"; exit 3; }
 if [ "$PATCH" != "none" ]; then
-  git -C $MT/repo apply "$PATCH" || { echo "PATCH DOES NOT APPLY"; exit 3; }
+  git -C $MT/repo apply "$PATCH" 2>/dev/null || (cd $MT/repo && patch -p1 -F3 -s --no-backup-if-mismatch < "$PATCH") || { echo "PATCH DOES NOT APPLY"; exit 3; }
 fi
-rsync -a --delete --exclude .git --exclude .build --exclude evidence/replay /verif/ $MT/verif/
+rsync -a --delete --exclude .git --exclude .build --exclude evidence/replay --exclude '*.tmp.*' /verif/ $MT/verif/ || [ $? -eq 24 ]
 mkdir -p $MT/verif/.build $MT/verif/evidence
 sed -i "s|/repo/|$MT/repo/|g" $MT/verif/harness/Cargo.toml $MT/verif/harness/src/bin/*.rs
 sed -i "s|/verif/.build/cargo|$MT/verif/.build/cargo|" $MT/verif/harness/.cargo/config.toml
